@@ -10,6 +10,7 @@ C39 — model of `fdtdx/materials.py`:
                                              (permittivity[0], permeability[0], electric_conductivity[0], magnetic_conductivity[0])
   `compute_allowed_permittivities/…permeabilities/…electric_conductivities/…magnetic_conductivities`,
   `compute_ordered_names`                 → `allowed`, `orderedNames` (projections of `ordered`)
+  `compute_allowed_dispersive_coefficients` (row order only) → `dispersiveTable`
   `_split_complex_property`, `Material.from_complex_permittivity` (incl. the singular-real-part check)
                                           → `splitComplex`, `fromComplex`, `det3`
 
@@ -89,6 +90,10 @@ structure Mat (α : Type) where
   mu : List α
   sigE : List α
   sigM : List α
+  /-- the material's zero-padded dispersive recurrence rows (c1, c2, c3, c4 of its poles, flattened; all zero for a
+  non-dispersive material).  The numbers come from `compute_pole_coefficients_tensor` (property C35) and are opaque here:
+  C39 is only about WHICH material's rows sit at which index. -/
+  disp : List α := []
   deriving Repr
 
 /-- sort key of `compute_ordered_material_name_tuples` -/
@@ -124,6 +129,11 @@ def project (mode : Nat) (p : List α) : List α :=
 /-- `compute_allowed_<prop>` for the property selected by `sel` -/
 def allowed {ν : Type} (sel : Mat α → List α) (mode : Nat) (ms : List (ν × Mat α)) : List (List α) :=
   (ordered ms).map fun m => project mode (sel m.2)
+
+/-- `compute_allowed_dispersive_coefficients`: row `i` of every coefficient array is the block of the `i`-th material of
+`ordered` (the loop `for m_idx, (_, mat) in enumerate(ordered)`) -/
+def dispersiveTable {ν : Type} (ms : List (ν × Mat α)) : List (List α) :=
+  (ordered ms).map fun m => m.2.disp
 
 /-! ### complex permittivity -/
 
@@ -163,7 +173,7 @@ def fromComplex (omega eps0 mu0 tol : α) (se : Nat) (re : List Nat) (e : List (
   if singular tol mrN then none
   let esN ← (shapeInput se re es).bind normalize
   let msN ← (shapeInput sm rm msg).bind normalize
-  pure ⟨erN, mrN, esN, msN⟩
+  pure { eps := erN, mu := mrN, sigE := esN, sigM := msN }
 
 end generic
 
@@ -208,6 +218,7 @@ def pairs : List Float → List (Float × Float)
   `norm <input>`                         → `ok <9 floats>` | `error`
   `pred <rel> <9 floats>`                → `<iso> <diag> <magnetic> <conductive>`
   `mats <mode> <n> <36 floats>*n`        → `<order: original indices> | <eps lists> | <mu lists> | <sigE lists> | <sigM lists>`
+  `matsd <n> <L> <(36+L) floats>*n`      → `<order> | <dispersive rows in canonical order, L floats each>`
   `cplx <omega> <eps0> <mu0> <tol> <se> <k rows…> <ne> <2ne floats> <sm> <k rows…> <nm> <2nm floats>` → `ok <36 floats>` | `error`
 -/
 def handle : List String → String
@@ -228,10 +239,19 @@ def handle : List String → String
     | some [mode, n], some xs =>
       if xs.length ≠ 36 * n ∨ mode > 2 then "bad-op" else
       let ms : List (Nat × Mat Float) := (List.range n).zip ((chunk 36 n xs).map fun c =>
-        (⟨c.take 9, (c.drop 9).take 9, (c.drop 18).take 9, c.drop 27⟩ : Mat Float))
+        ({ eps := c.take 9, mu := (c.drop 9).take 9, sigE := (c.drop 18).take 9, sigM := c.drop 27 } : Mat Float))
       let sh := fun (l : List (List Float)) => showFloats l.flatten
       joinSp [showNats (orderedNames ms), "|", sh (allowed Mat.eps mode ms), "|", sh (allowed Mat.mu mode ms), "|",
               sh (allowed Mat.sigE mode ms), "|", sh (allowed Mat.sigM mode ms)]
+    | _, _ => "bad-op"
+  | "matsd" :: n :: l :: vs =>
+    match natsOf [n, l], floatsOfHex vs with
+    | some [n, l], some xs =>
+      if xs.length ≠ (36 + l) * n then "bad-op" else
+      let ms : List (Nat × Mat Float) := (List.range n).zip ((chunk (36 + l) n xs).map fun c =>
+        ({ eps := c.take 9, mu := (c.drop 9).take 9, sigE := (c.drop 18).take 9, sigM := (c.drop 27).take 9,
+           disp := c.drop 36 } : Mat Float))
+      joinSp [showNats (orderedNames ms), "|", showFloats (dispersiveTable ms).flatten]
     | _, _ => "bad-op"
   | "cplx" :: om :: e0 :: m0 :: tol :: rest =>
     let readProp : List String → Option (Nat × List Nat × List (Float × Float) × List String) := fun toks =>
